@@ -16,7 +16,7 @@
    token literals                       rune lists (WriteRune / string(rune) re-encode, see Utf8.enc_all) *)
 From Coq Require Import List NArith Bool.
 From Coq Require Strings.String Strings.Ascii.
-From Falco Require Import Base.Res Base.Bytes Base.Utf8 Gen.Tokens.
+From Falco Require Import Base.Res Base.Bytes Base.Utf8 Gen.Tokens Gen.LexClasses.
 Import ListNotations.
 Local Open Scope N_scope.
 
@@ -100,17 +100,16 @@ Definition skip_bytes (n : nat) (st : lexer) : lexer :=
        (idx st + N.of_nat (Nat.min n (length (rest st))))
        (peeks st) (iseof st) (eoftok st).
 
-(* ---- character classes ---- *)
-Definition is_letter (r : rune) : bool :=
-  in_rng 97 122 r || in_rng 65 90 r || (r =? 95).
-Definition is_decimal (r : rune) : bool := in_rng 48 57 r.
-Definition is_digit (r : rune) : bool := is_decimal r || (r =? 46).
-Definition is_hex (r : rune) : bool :=
-  in_rng 48 57 r || in_rng 97 102 r || in_rng 65 70 r.
-Definition is_delim (r : rune) : bool := negb (r =? 46) && (is_letter r || is_digit r).
-Definition is_space (r : rune) : bool := (r =? 32) || (r =? 9) || (r =? 13).
-Definition is_ident_cont (r : rune) : bool :=
-  (r =? 45) || (r =? 46) || (r =? 58) || (r =? 42) || is_digit r.
+(* ---- character classes and loop conditions: REGENERATED from the Go boolean expressions
+   (Gen/LexClasses.v, harness/cmd/trans/lex_classes.go); the documented classes are
+   Model/LexSpec.v ref_*, equal by C01_char_classes_documented ---- *)
+Definition is_letter (r : rune) : bool := g_isLetter r.
+Definition is_decimal (r : rune) : bool := g_isDecimalDigit r.
+Definition is_digit (r : rune) : bool := g_isDigit r.
+Definition is_hex (r : rune) : bool := g_isHexDigit r.
+Definition is_delim (r : rune) : bool := g_isLongStringDelimiter r.
+Definition is_space (r : rune) : bool := g_skipWhitespace_cond r.
+Definition is_ident_cont (r : rune) : bool := g_identTail_cond r.
 
 (* peekUntil(!isLongStringDelimiter): the peeked string INCLUDING the first byte that is not a
    delimiter character; an error when the input or the 4096-byte window ends first *)
@@ -153,7 +152,7 @@ Definition skip_whitespace (n : nat) (st : lexer) : res lexer :=
 
 Definition read_identifier := read_while is_letter.
 
-Definition in_string (r : rune) : bool := negb (r =? 34) && negb (r =? 0).
+Definition in_string (r : rune) : bool := g_readString_cond r.
 Definition read_string (n : nat) (st : lexer) : res (str * lexer) :=
   read_while in_string n (read_char st).
 
